@@ -2,8 +2,10 @@
    Directives in force: those of ExtrOcamlBasic only (bool, option, unit, list, prod, sumbool,
    sumor -> OCaml types); Z, positive, N, nat stay inductive; no Extract Constant. *)
 Require Extraction. Require ExtrOcamlBasic.
-Require Import PyBase GenText Text TextSpec GenTape Tape K7.
+Require Import PyBase GenText Text TextSpec GenTape Tape K7 GenBasic Basic Mo5Basic.
 Extraction Language OCaml.
 Extraction "model.ml" nl_run prettier_run pretty_spec nl_spec chomp
   nl_default_start nl_default_increment nl_default_width
-  tar_create tar_list tar_extract k7_decode doc_entry doc_path k7_encoded_size k7_file_image.
+  tar_create tar_list tar_extract k7_decode doc_entry doc_path k7_encoded_size k7_file_image
+  tokenize_program lst_to_ascii ascii_to_lst detok upper_outside_strings ref_encode ref_source line_number line_text
+  readlines_file readlines_stdin program_records.
